@@ -10,6 +10,7 @@ import re
 
 from engine.facts import walk, call_args, member_call_object, expr_str
 from engine.compdb import AnalysisBroken
+from engine.cfg import strip_casts
 
 UNITS = ["src/abg-comparison.cc"]
 
@@ -60,11 +61,101 @@ def _subject_accessor(f, n, locals_, depth=0):
     return None
 
 
+def eqsym(ctx, P):
+    """R-EQSYM: in every ir::equals(l, r, k) overload each (in)equality whose operands derive from the two
+    parameters pairs an l-derived value with an r-derived value reached through the *same* accessor path
+    (or compares two values of the same side: iteration bounds).  A comparison of different accessors
+    of l and r, or a one-sided test against something else, makes equality order-dependent."""
+    eqs = [f for f in P.all_funcs() if f.q == "abigail::ir::equals" and len(f.r["params"]) == 3 and not f.dep]
+    ctx.floor("R-EQSYM", "ir::equals overloads", len(eqs), 15)
+    n_cmp = 0
+    for f in sorted(eqs, key=lambda x: x.l0):
+        ctx.analysed(f)
+        pa, pb = f.r["params"][0], f.r["params"][1]
+        side = {pa: ("L", "#"), pb: ("R", "#")}
+
+        def path(e):
+            sides = set()
+            txt = expr_str(f, e)
+            for x in walk(e):
+                if x["k"] == "DeclRefExpr" and x.get("d") in side:
+                    sd, pth = side[x["d"]]
+                    sides.add(sd)
+                    nm = (f.decl(x) or {}).get("n")
+                    txt = re.sub(r"\b%s\b" % re.escape(nm), "#" if pth == "#" else "(" + pth + ")", txt)
+            return sides, txt
+        changed = True
+        while changed:
+            changed = False
+            for n in f.nodes():
+                tgt = rhs = None
+                if n["k"] == "VarDecl" and n.get("c") and n["c"][0] is not None:
+                    tgt, rhs = n.get("d"), n["c"][0]
+                elif n["k"] == "BinaryOperator" and n.get("op") == "=":
+                    l0 = n["c"][0]
+                    if l0 is not None and l0["k"] == "DeclRefExpr":
+                        tgt, rhs = l0.get("d"), n["c"][1]
+                elif n["k"] == "CXXOperatorCallExpr" and n.get("op") == "=" and len(n["c"]) == 3:
+                    l0 = n["c"][1]
+                    if l0 is not None and l0["k"] == "DeclRefExpr":
+                        tgt, rhs = l0.get("d"), n["c"][2]
+                if tgt is None or tgt in side or rhs is None:
+                    continue
+                sd, txt = path(rhs)
+                if len(sd) == 1:
+                    side[tgt] = (next(iter(sd)), txt)
+                    changed = True
+        short_sig = f.sig.replace("abigail::ir::", "").split(",")[0] + ", ...)"
+        seen = {}
+        cmps = []
+        for n in f.nodes():
+            if n["k"] in ("BinaryOperator", "CXXOperatorCallExpr") and n.get("op") in ("==", "!="):
+                ops = call_args(n) if n["k"] == "CXXOperatorCallExpr" else n["c"]
+                if len(ops) == 2:
+                    cmps.append((n, ops, path(ops[0]), path(ops[1])))
+        # a test of one side against a constant is symmetric when the other side gets the same test
+        one_sided = {}
+        for n, ops, (s1, t1), (s2, t2) in cmps:
+            if len(s1) == 1 and not s2:
+                one_sided.setdefault((n.get("op"), t1, t2), set()).update(s1)
+            elif len(s2) == 1 and not s1:
+                one_sided.setdefault((n.get("op"), t2, t1), set()).update(s2)
+        for n, ops, (s1, t1), (s2, t2) in cmps:
+            if True:
+                if not s1 and not s2:
+                    continue
+                # `it == c.end()` is an iteration bound / membership sentinel, not a comparison of two values
+                # of the subjects (equals(class_decl) looks l's vtable offsets up in r's map this way, and the
+                # existential match that follows is symmetric); out of the rule's scope
+                if any(x is not None and x["k"] == "CXXMemberCallExpr" and (f.decl(x) or {}).get("n") in ("end", "cend")
+                       for x in (strip_casts(ops[0]), strip_casts(ops[1]))):
+                    continue
+                n_cmp += 1
+                cross = (s1 == {"L"} and s2 == {"R"}) or (s1 == {"R"} and s2 == {"L"})
+                same = s1 == s2 and len(s1) == 1
+                mirrored = (one_sided.get((n.get("op"), t1, t2)) == {"L", "R"} or
+                            one_sided.get((n.get("op"), t2, t1)) == {"L", "R"})
+                ok = same or (cross and t1 == t2) or mirrored
+                if ok:
+                    continue
+                ent = "%s: `%s` is symmetric in its two operands" % (short_sig, expr_str(f, n)[:80])
+                ent += ("" if ent not in seen else " #%d" % (seen[ent] + 1))
+                seen[ent] = seen.get(ent, 0) + 1
+                ctx.ob("R-EQSYM", ent, False, f.loc(n),
+                       "left operand derives from %s through `%s`, right operand from %s through `%s`: swapping the "
+                       "arguments of equals() changes what is compared" % (sorted(s1) or "neither", t1[:60],
+                                                                            sorted(s2) or "neither", t2[:60]))
+        ctx.ob("R-EQSYM", "%s: every parameter-derived comparison is symmetric" % short_sig, True, f.loc(), "")
+    ctx.floor("R-EQSYM", "parameter-derived comparisons in ir::equals overloads", n_cmp, 60)
+
+
 def run(ctx):
     ctx.clause = ("every artifact diff's has_changes() is, by construction, the negation of the IR's "
-                  "deep equality on the node's own two subjects (so diffing and equality cannot disagree)")
-    ctx.rules = ["R-HASCHG"]
-    P = ctx.program(UNITS)
+                  "deep equality on the node's own two subjects (so diffing and equality cannot disagree); and every "
+                  "comparison inside the ir::equals overloads pairs the same accessor of its two arguments (the "
+                  "syntactic part of symmetry)")
+    ctx.rules = ["R-HASCHG", "R-EQSYM"]
+    P = ctx.program(UNITS + ["src/abg-ir.cc"])
     base = P.fn1("abigail::comparison::corpus_diff::has_changes")  # anchor
     diff_classes = P.subclasses("abigail::comparison::diff")
     overr = [f for f in P.all_funcs()
@@ -112,3 +203,4 @@ def run(ctx):
             detail += " - operands are not this node's own first/second subject accessors"
         ctx.ob("R-HASCHG", ent, deep and own, f.loc(e), detail)
     ctx.floor("R-HASCHG", "artifact diff classes overriding has_changes", n_art, 15)
+    eqsym(ctx, P)
